@@ -231,12 +231,15 @@ func (x *Exec) callProtocol(call *ast.CallExpr, fv *Val, st *St, fr *Frame, k kv
 	if c == nil {
 		oos("unknown protocol %s", fv.Proto)
 	}
+	if x.inst != "" {
+		c = instantiateContract(c, x.inst, x.W.CS)
+	}
 	sig, ok := fv.Ty.Underlying().(*types.Signature)
 	if !ok {
 		oos("protocol call of a non-function at %s", x.W.pos(call.Pos()))
 	}
 	x.evalArgs(call.Args, st, fr, func(st *St, args []*Val) {
-		names := map[string]*Val{}
+		names := map[string]*Val{"self": fv}
 		for i, a := range args {
 			if i < len(c.Params) && i < sig.Params().Len() {
 				names[c.Params[i]] = x.coerce(st, a, sig.Params().At(i).Type())
@@ -261,9 +264,13 @@ func (x *Exec) callProtocol(call *ast.CallExpr, fv *Val, st *St, fr *Frame, k kv
 		for kx, v := range names {
 			post[kx] = v
 		}
+		post["self"] = fv
 		var rvals []*Val
 		for i := 0; i < sig.Results().Len(); i++ {
-			rv := x.freshVal(st, "ret.proto", sig.Results().At(i).Type())
+			rv := x.freshVal(st, "ret.proto", x.Fn.substAll(fr, sig.Results().At(i).Type()))
+			if i == 0 && c.Yields != "" {
+				rv.Proto = x.W.protoOf(c.Yields)
+			}
 			rvals = append(rvals, rv)
 			post[fmt.Sprintf("result%d", i)] = rv
 			if i == 0 {
